@@ -1016,7 +1016,8 @@ class SyncObj(object):
                     self.__onBecomeLeader()
 
         if self.__raftState == _RAFT_STATE.LEADER:
-            if message['type'] == 'next_node_idx':
+            # A reply to append_entries of an earlier term of ours says nothing about our current log
+            if message['type'] == 'next_node_idx' and message.get('term', self.__raftCurrentTerm) == self.__raftCurrentTerm:
                 reset = message['reset']
                 nextNodeIdx = message['next_node_idx']
                 success = message['success']
@@ -1054,6 +1055,7 @@ class SyncObj(object):
             'next_node_idx': nextNodeIdx,
             'reset': reset,
             'success': success,
+            'term': self.__raftCurrentTerm,
         })
 
     def __generateRaftTimeout(self):
